@@ -258,3 +258,89 @@ def instance_labels(inst, opts=None):
         for n, p, e in opts['crit']:
             L.append('crit=' + n)
     return L
+
+
+# ------------------------------------------------------------------ sparse embedding
+ID_POOL = [1, 2, 3, 9, 10, 11, 12, 13, 19, 20, 21, 22]
+
+
+def embed(inst, smap, pmap, lmap=None):
+    """Embed a small instance into one with large, sparse ids (two digits, colliding digit
+    strings) without changing its matchings: the real agents keep their structure under new
+    ids, every other id is an inert agent (inert students rank only an inert sink project with
+    room for all of them).  Returns (big instance, lift) where lift maps a matching of the
+    small instance to the corresponding matching of the big one."""
+    na = inst['na']
+    n1, n2, n3 = inst['n1'], inst['n2'], inst['n3']
+    if na == 2:
+        lmap = list(pmap)
+    N1 = max(smap)
+    inert_s = [s for s in range(1, N1 + 1) if s not in smap]
+    N2 = max(pmap)
+    free_p = [p for p in range(1, N2 + 1) if p not in pmap]
+    if inert_s and not free_p:
+        N2 += 1
+        free_p = [N2]
+    sink_p = free_p[0] if inert_s else None
+    if na == 3:
+        N3 = max(lmap)
+        free_l = [l for l in range(1, N3 + 1) if l not in lmap]
+        if (inert_s or len(free_p) > 0) and not free_l:
+            N3 += 1
+            free_l = [N3]
+        sink_l = free_l[0] if free_l else None
+    else:
+        N3 = N2
+        sink_l = sink_p
+    prefs = [None] * N1
+    for i in range(n1):
+        prefs[smap[i] - 1] = [[pmap[p - 1] for p in g] for g in inst['prefs'][i]]
+    for s in inert_s:
+        prefs[s - 1] = [[sink_p]]
+    plq, puq, plec = [0] * N2, [0] * N2, [sink_l if sink_l else 1] * N2
+    for j in range(n2):
+        plq[pmap[j] - 1] = inst['plq'][j]
+        puq[pmap[j] - 1] = inst['puq'][j]
+        plec[pmap[j] - 1] = lmap[inst['plec'][j] - 1]
+    if sink_p:
+        puq[sink_p - 1] = len(inert_s)
+    big = {'na': na, 'n1': N1, 'n2': N2, 'n3': N3, 'prefs': prefs, 'plq': plq, 'puq': puq,
+           'cls': 'embedded'}
+    two = inst.get('lprefs') is not None
+    if na == 3:
+        llq, lt, luq = [0] * N3, [0] * N3, [0] * N3
+        for k in range(n3):
+            llq[lmap[k] - 1], lt[lmap[k] - 1], luq[lmap[k] - 1] = \
+                inst['llq'][k], inst['lt'][k], inst['luq'][k]
+        if sink_l:
+            lt[sink_l - 1] = luq[sink_l - 1] = len(inert_s)
+        big.update(plec=plec, llq=llq, lt=lt, luq=luq)
+    else:
+        big.update(plec=list(range(1, N2 + 1)), llq=list(plq), lt=list(puq), luq=list(puq))
+    if two:
+        lprefs = [[] for _ in range(N3)]
+        for k in range(n3):
+            lprefs[lmap[k] - 1] = [[smap[s - 1] for s in g] for g in inst['lprefs'][k]]
+        if inert_s:
+            lprefs[sink_l - 1] = [[s] for s in inert_s]
+        big['lprefs'] = lprefs
+    else:
+        big['lprefs'] = None
+
+    def lift(M):
+        out = [0] * N1
+        for i, p in enumerate(M):
+            out[smap[i] - 1] = pmap[p - 1] if p else 0
+        for s in inert_s:
+            out[s - 1] = sink_p
+        return tuple(out)
+    return big, lift
+
+
+@st.composite
+def id_maps(draw, inst):
+    """Drawn sparse id maps (students, projects, lecturers) for embed()."""
+    smap = list(draw(st.permutations(ID_POOL)))[:inst['n1']]
+    pmap = list(draw(st.permutations(ID_POOL)))[:inst['n2']]
+    lmap = list(draw(st.permutations(ID_POOL)))[:inst['n3']] if inst['na'] == 3 else None
+    return {'smap': smap, 'pmap': pmap, 'lmap': lmap}
